@@ -57,7 +57,7 @@ theorem emsg_value_error_iff (s : Sched) (repTs : Int) (g : Seg) :
       · have := h.2.1; omega
       · have := h.2.2.1; omega
 
-/-- **D13b (why the guard is needed).** Without the guard the loop of lines 97-131
+/-- **D13b (why the guard is needed).** Without the guard of lines 67-70 the loop of lines 106-136
 diverges: with `interval = 0` and an unbounded schedule, once an event lies in the
 segment no amount of fuel lets the loop finish … -/
 theorem emsgLoop_diverges_interval_zero (s : Sched) (h0 : s.interval = 0) (hc : s.count ≤ 0)
